@@ -38,7 +38,7 @@ def make_reader(F, R, Gm):
         return None
     maps = c09.rule_maps(F, R)
     if len(maps["bin"]) != 1 or len(maps["un"]) != 1:
-        R.ob("PRINT-PARSE", "rule-maps", False, "", "expected one Rule->BinOp and one Rule->UnOp mapping")
+        R.ob("PRINT-PARSE", "rule-maps", False, "", "expected one Rule->BinOp and one Rule->UnOp mapping", undecided=True)
         return None
     r2b = {r: v.rsplit("::", 1)[-1] for r, v in maps["bin"][0][2].items()}
     r2u = {r: v.rsplit("::", 1)[-1] for r, v in maps["un"][0][2].items()}
